@@ -181,7 +181,7 @@ func treeShape(t *crdt.Tree) (tombs, splits int) {
 func pathString(p []int) string { return fmt.Sprint(p) }
 
 // checkTreeInvariants runs the model-free checks on one view of the tree.
-func checkTreeInvariants(view string, t *crdt.Tree) *kit.Failure {
+func checkTreeInvariants(view string, t *crdt.Tree, excluded *int) *kit.Failure {
 	xml := t.ToXML()
 	tokens, err := xmlTokens(xml)
 	if err != nil {
@@ -192,7 +192,12 @@ func checkTreeInvariants(view string, t *crdt.Tree) *kit.Failure {
 		return kit.Failf("TREE-LEN", "%s: Len()=%d but ToXML() has %d tokens inside the root: %s", view, n, tokens-2, xml)
 	}
 	mixed := hasMixedChildren(t.Root())
+	toks := xmlTokenize(xml)
+	inner := toks[1 : len(toks)-1]
 	for i := 0; i <= n; i++ {
+		if mixed && !kit.NoExclusions() && mixedBoundary(inner, i) {
+			continue // FINDPOS-MIXED, see applyFree
+		}
 		pos, err := t.FindPos(i)
 		if err != nil {
 			return kit.Failf("TREE-INDEX", "%s: FindPos(%d) of %d: %v (%s)", view, i, n, err, xml)
@@ -221,6 +226,20 @@ func checkTreeInvariants(view string, t *crdt.Tree) *kit.Failure {
 		}
 		if mixed {
 			continue
+		}
+		if left != parent && left.IsText() && !kit.NoExclusions() {
+			// TOPATH-TOMBSTONE: TreePosToPath takes the raw child offset of a text
+			// node (tombstones included) but sums over the visible children only,
+			// so ToPath is wrong (or panics) when a tombstoned sibling precedes the
+			// text node. Excluded by construction, reported as a finding.
+			raw := left.Index.Parent.OffsetOfChild(left.Index)
+			vis, _ := left.Index.Parent.FindOffset(left.Index)
+			if raw != vis {
+				if excluded != nil {
+					*excluded++
+				}
+				continue
+			}
 		}
 		path, err := t.ToPath(parent, left)
 		if err != nil {
@@ -412,13 +431,94 @@ func applyStructured(w *world, t *yjson.Tree, m *treeModel, s Step, descOut *str
 	}
 }
 
+// tok is one token of a ToXML() string.
+type tok struct {
+	kind       byte // 'o' open tag, 'c' close tag, 't' one UTF-16 unit of text
+	start, end int  // byte range (a surrogate pair's two units share the range of the rune)
+}
+
+// xmlTokenize splits a ToXML() string into tokens, the root's tags included.
+func xmlTokenize(x string) []tok {
+	var out []tok
+	i := 0
+	for i < len(x) {
+		if x[i] == '<' {
+			j := i + strings.IndexByte(x[i:], '>') + 1
+			k := byte('o')
+			if x[i+1] == '/' {
+				k = 'c'
+			}
+			out = append(out, tok{k, i, j})
+			i = j
+			continue
+		}
+		for _, r := range x[i:] {
+			if r == '<' {
+				break
+			}
+			w := len(string(r))
+			for range u16(string(r)) {
+				out = append(out, tok{'t', i, i + w})
+			}
+			i += w
+		}
+	}
+	return out
+}
+
+// mixedBoundary reports whether index i (a boundary between the inner tokens)
+// lies right after a close tag and right before a text unit: FindPos resolves
+// such an index to the far side of the preceding text (FINDPOS-MIXED).
+func mixedBoundary(inner []tok, i int) bool {
+	return i > 0 && i < len(inner) && inner[i-1].kind == 'c' && inner[i].kind == 't'
+}
+
+func balanced(inner []tok, from, to int) bool {
+	depth := 0
+	for _, t := range inner[from:to] {
+		switch t.kind {
+		case 'o':
+			depth++
+		case 'c':
+			depth--
+			if depth < 0 {
+				return false
+			}
+		}
+	}
+	return depth == 0
+}
+
 // applyFree performs an arbitrary edit or style call; only from<=to within
-// 0..Len is guaranteed (that is all json.Tree validates).
-func applyFree(w *world, t *yjson.Tree, s Step, descOut *string, prefix string) {
+// 0..Len is guaranteed (that is all json.Tree validates). When the edit does
+// not split (splitLevel 0) and the range is balanced (every tag in it has its
+// partner in it), the expected XML is the plain splice of the content into the
+// token sequence; it is returned in want (empty = no model for this call).
+func applyFree(w *world, t *yjson.Tree, s Step, descOut *string, prefix string) (want string) {
 	n := t.Len()
 	from := s.A % (n + 1)
 	to := from + s.B%(n-from+1)
 	before := t.ToXML()
+	toks := xmlTokenize(before)
+	inner := toks[1 : len(toks)-1]
+	haveModel := len(inner) == n // otherwise Len() is already off; the invariant check reports it
+	if haveModel && !kit.NoExclusions() {
+		moved := false
+		if mixedBoundary(inner, from) {
+			from++
+			moved = true
+			if to < from {
+				to = from
+			}
+		}
+		if mixedBoundary(inner, to) {
+			to++
+			moved = true
+		}
+		if moved {
+			w.count("excluded:FINDPOS-MIXED")
+		}
+	}
 	if s.Op == "fstyle" {
 		key := []string{"b", "i"}[s.C%2]
 		if s.D%3 == 0 {
@@ -432,21 +532,22 @@ func applyFree(w *world, t *yjson.Tree, s Step, descOut *string, prefix string) 
 			w.count("op:fstyle")
 			t.Style(from, to, map[string]string{key: fmt.Sprint(s.D % 3)})
 		}
-		return
+		return ""
 	}
 	var content *yjson.TreeNode
-	cdesc := "nil"
+	cdesc, cxml := "nil", ""
 	switch s.C % 6 {
 	case 1:
-		content, cdesc = textNode("Q"), `text "Q"`
+		content, cdesc, cxml = textNode("Q"), `text "Q"`, "Q"
 	case 2:
-		content, cdesc = textNode("한z"), `text "한z"`
+		content, cdesc, cxml = textNode("한z"), `text "한z"`, "한z"
 	case 3:
-		content, cdesc = &yjson.TreeNode{Type: "p"}, "<p></p>"
+		content, cdesc, cxml = &yjson.TreeNode{Type: "p"}, "<p></p>", "<p></p>"
 	case 4:
-		content, cdesc = &yjson.TreeNode{Type: "p", Children: []yjson.TreeNode{*textNode("mn")}}, "<p>mn</p>"
+		content, cdesc, cxml = &yjson.TreeNode{Type: "p", Children: []yjson.TreeNode{*textNode("mn")}}, "<p>mn</p>", "<p>mn</p>"
 	case 5:
-		content, cdesc = &yjson.TreeNode{Type: "q", Children: []yjson.TreeNode{{Type: "p", Children: []yjson.TreeNode{*textNode("k")}}}}, "<q><p>k</p></q>"
+		content, cdesc, cxml = &yjson.TreeNode{Type: "q", Children: []yjson.TreeNode{{Type: "p", Children: []yjson.TreeNode{*textNode("k")}}}},
+			"<q><p>k</p></q>", "<q><p>k</p></q>"
 	}
 	level := (s.D % 5) % 3 // 0,1,2,0,1
 	*descOut = fmt.Sprintf("tree.Edit(%d,%d,%s,splitLevel %d) on %s", from, to, cdesc, level, before)
@@ -463,7 +564,21 @@ func applyFree(w *world, t *yjson.Tree, s Step, descOut *string, prefix string) 
 	default:
 		w.count("fedit:replace")
 	}
+	if haveModel && level == 0 && balanced(inner, from, to) {
+		off := func(i int) int { // byte offset of boundary i
+			if i == len(inner) {
+				return toks[len(toks)-1].start
+			}
+			return inner[i].start
+		}
+		// a boundary inside a surrogate pair cannot occur: tree texts are BMP only
+		want = before[:off(from)] + cxml + before[off(to):]
+		w.count("fedit:splice_model")
+	} else if haveModel {
+		w.count("fedit:unbalanced_or_split")
+	}
 	t.Edit(from, to, content, level)
+	return want
 }
 
 func evalTree(c Case, trace bool) verdict {
@@ -483,7 +598,14 @@ func evalTree(c Case, trace bool) verdict {
 		w.count("mode:structured")
 	}
 	var models [2]*treeModel
+	var remoteBad *kit.Failure
 	reinit := func(r int) {
+		// the state a sync / snapshot / GC left behind must already satisfy the
+		// invariants; if it does not, no local call is to blame: the case is
+		// dropped and counted (REMOTE-INCONSISTENT, reported as a finding)
+		if f := checkTreeInvariants(fmt.Sprintf("r%d after sync", r), rootTree(w, r), nil); f != nil && remoteBad == nil {
+			remoteBad = f
+		}
 		if free {
 			return
 		}
@@ -528,6 +650,30 @@ func evalTree(c Case, trace bool) verdict {
 		default:
 			return w.finish(kit.Failf("HARNESS", "HARNESS-ERROR unknown tree op %q", s.Op), false)
 		}
+		if free && remoteBad == nil {
+			// free mode never edits concurrently: arbitrary concurrent merges and
+			// splits are a convergence topic, not a local-semantics one
+			o := 1 - r
+			if w.docs[o].HasLocalChanges() || w.cursor[r] < len(w.log) {
+				w.count("free:handover_sync")
+				for _, q := range []int{o, r} {
+					if e := w.sync(q, false); e != nil {
+						return historyVerdict(w, e)
+					}
+				}
+				reinit(r)
+			}
+		}
+		if remoteBad != nil {
+			if kit.NoExclusions() {
+				remoteBad.Msg = fmt.Sprintf("before step %d: %s", si, remoteBad.Msg)
+				w.logf("FAIL %s", remoteBad.Error())
+				return w.finish(remoteBad, false)
+			}
+			w.count("excluded:REMOTE-INCONSISTENT")
+			w.logf("DISCARDED: %s", remoteBad.Error())
+			return w.finish(nil, false)
+		}
 		if rootTree(w, r) == nil {
 			return w.finish(kit.Failf("HARNESS", "HARNESS-ERROR tree missing on r%d", r), false)
 		}
@@ -569,21 +715,28 @@ func evalTree(c Case, trace bool) verdict {
 				if t.Len() != m.size() {
 					return kit.Failf("TREE-LEN", "clone: Len()=%d, model size %d (%s)", t.Len(), m.size(), m.xml())
 				}
-			} else {
-				applyFree(w, t, s, &desc, prefix)
+			} else if want := applyFree(w, t, s, &desc, prefix); want != "" {
+				if got := t.ToXML(); got != want {
+					return kit.Failf("TREE-XML", "clone: ToXML()=%s, the plain splice gives %s", got, want)
+				}
 			}
 			cloneXML = t.ToXML()
 			if hasMixedChildren(t.Root()) {
 				w.count("call:mixed_children")
 			}
-			return checkTreeInvariants("clone", t.Tree)
+			ex := 0
+			f := checkTreeInvariants("clone", t.Tree, &ex)
+			if ex > 0 {
+				w.count("excluded:TOPATH-TOMBSTONE")
+			}
+			return f
 		})
 		if fail == nil {
 			rt := rootTree(w, r)
 			if got := rt.ToXML(); got != cloneXML {
 				fail = kit.Failf("TREE-XML", "root: ToXML()=%s but the clone the call ran on shows %s", got, cloneXML)
 			} else {
-				fail = checkTreeInvariants("root", rt)
+				fail = checkTreeInvariants("root", rt, nil)
 			}
 		}
 		if fail != nil {
